@@ -9,7 +9,10 @@ HOOK_FLAGS = ['-DMI_VERIF_HOOKS="%s"' % os.path.join(vlib.HARN, "hooks.h"), "-DM
 
 KINDS = {
     "C02": {"tfree": {"overlap", "content", "crash", "livelock", "fail"}, "exit": {"overlap", "content", "crash"}},
-    "C08": {"tfree": {"lost", "leak", "livelock"}},
+    "C08": {"tfree": {"lost", "leak", "livelock"},
+            # producer/consumer with a bounded number of live blocks (harness/prodcons.h); `unbounded` = the owner's heap holds more pages /
+            # more remotely freed but unreclaimed blocks than the bound derived from the number of live blocks and the drain period
+            "prodcons": {"unbounded", "lost", "leak", "livelock", "crash", "content", "overlap", "fail"}},
     "C09": {"exit": {"content", "overlap", "crash", "abandoned-leak", "leak", "segment-leak", "livelock", "fail"}},
     "C10": {"heap": {"content", "overlap", "crash", "leak", "livelock", "fail"}},
     "C12": {"exit": {"abandoned-visit"}},
@@ -73,6 +76,7 @@ def run_conc(res, pid, seed, tier, envs=(None,), nseeds_quick=36):
     stats = collections.Counter()
     found = {}
     jobs = []
+    prodcons = {}
     for mode in KINDS[pid]:
         for env in envs:
             for i in range(nseeds):
@@ -89,6 +93,12 @@ def run_conc(res, pid, seed, tier, envs=(None,), nseeds_quick=36):
             if end:
                 stats["atomic_steps"] += int(end.group(1))
                 if end.group(3): stats["context_switches"] += int(end.group(3)); stats["spurious_cas_failures"] += int(end.group(4))
+            for m in re.finditer(r'^O prodcons t\d+ allocs=(\d+) max_pages=(\d+) max_segments=(\d+) max_unreclaimed=(\d+) bound_pages=(\d+) bound_unreclaimed=(\d+)', out, re.M):
+                al, mp, ms, mu, bp, bu = (int(x) for x in m.groups())
+                stats["prodcons_producers"] += 1; stats["prodcons_allocations"] += al
+                pc = prodcons.setdefault("collect16" if bu < 100 else "plain", {"max_pages": 0, "bound_pages_min": bp, "max_unreclaimed": 0, "bound_unreclaimed_min": bu, "max_segments": 0})
+                pc["max_pages"] = max(pc["max_pages"], mp); pc["max_unreclaimed"] = max(pc["max_unreclaimed"], mu); pc["max_segments"] = max(pc["max_segments"], ms)
+                pc["bound_pages_min"] = min(pc["bound_pages_min"], bp); pc["bound_unreclaimed_min"] = min(pc["bound_unreclaimed_min"], bu)
             for kind, text in v:
                 stats["viol:" + kind] += 1
                 if kind in KINDS[pid][mode] and kind not in found:
@@ -104,6 +114,9 @@ def run_conc(res, pid, seed, tier, envs=(None,), nseeds_quick=36):
     res.cov["traces_validated_against_impl"] += stats["schedules"]
     d = res.cov.setdefault("input_distribution", {})
     d["scheduler"] = {k: v for k, v in stats.items()}
+    if prodcons:
+        # measured maxima on this tree against the derived bounds (smallest bound over the thread counts used)
+        d["prodcons_bounded_memory"] = prodcons
     res.add_samples(["s_conc %s %d %d %d" % (j[0], j[1], j[2], j[3]) for j in jobs[:3]])
     return stats
 
@@ -138,11 +151,13 @@ def run_corpus(res, pid):
     return n
 
 
-def run_lockstep(res, pid, seed, tier):
-    """schedule-lockstep tie (S): the real allocator runs mode `lock` of s_conc.c under the deterministic scheduler and logs
-    every atomic access to page->xthread_free, page->xheap and heap->thread_delayed_free (abstract old -> new value); the
-    extracted Coq model Model/TFree.v must be able to take the same step of the same thread with the same values, and its
-    boolean invariant inv_b is evaluated on the synchronised states (ocaml mode tfree-lockstep)."""
+def run_lockstep(res, pid, seed, tier, mode="lock", key="corr:tfree-lockstep", kinds=()):
+    """schedule-lockstep tie (S): the real allocator runs mode `lock` (the tfree program) or `lockheap` (the heap program: mi_heap_new /
+    mi_heap_delete / mi_heap_collect of per-thread extra heaps while other threads free into their pages) of s_conc.c under the
+    deterministic scheduler and logs every atomic access to page->xthread_free, page->xheap and heap->thread_delayed_free (abstract
+    old -> new value); the extracted Coq model Model/TFree.v must be able to take the same step of the same thread with the same values,
+    and its boolean invariant inv_b is evaluated on the synchronised states (ocaml mode tfree-lockstep).
+    kinds: oracle kinds of the harness that count as a failing input when the mismatching run also reports one of them."""
     exe = build(res)
     if exe is None:
         return None
@@ -151,34 +166,50 @@ def run_lockstep(res, pid, seed, tier):
         res.violation("model-build", "extracted model does not build: " + txt[-1200:]); return None
     big = tier == "thorough"
     jobs = [(seed * 1000 + i, 2 + i % 3, (150 if big else 80) if i % 2 else 40) for i in range(60 if big else 16)]
-    stats = collections.Counter(); first_mismatch = None
+    stats = collections.Counter(); hist = collections.Counter(); first_mismatch = None
     def one(j):
         sd, nt, nops = j
-        rc, out = run_one(exe, "lock", sd, nt, nops, log=True, timeout=180)
+        rc, out = run_one(exe, mode, sd, nt, nops, log=True, timeout=180)
         logtxt = "\n".join(l for l in out.splitlines() if not l.startswith("END") and not l.startswith("V "))
         rc2, mout = vlib.model_replay("tfree-lockstep", logtxt + "\n", timeout=600)
-        return j, out, mout
+        return j, rc, out, mout
+    tag = "lockstep" if mode == "lock" else mode
     with concurrent.futures.ThreadPoolExecutor(max_workers=int(vlib.JOBS)) as ex:
-        for j, out, mout in ex.map(one, jobs):
-            stats["lockstep_logs"] += 1
-            m = re.search(r'STAT tfree-lockstep lines=(\d+) atomic_steps=(\d+) inv_b_checks=(\d+)', mout)
+        for j, rc, out, mout in ex.map(one, jobs):
+            stats[tag + "_logs"] += 1
+            m = re.search(r'STAT tfree-lockstep lines=(\d+) atomic_steps=(\d+) inv_b_checks=(\d+) max_state_set=(\d+) final_state_set=(\d+)(?: hist=(\S*))?', mout)
             if m:
-                stats["lockstep_atomic_steps"] += int(m.group(2)); stats["lockstep_inv_b_checks"] += int(m.group(3))
+                stats[tag + "_atomic_steps"] += int(m.group(2)); stats[tag + "_inv_b_checks"] += int(m.group(3))
+                stats[tag + "_max_state_set"] = max(stats[tag + "_max_state_set"], int(m.group(4)))
+                for kv in (m.group(6) or "").split(","):
+                    if ":" in kv:
+                        k, v = kv.rsplit(":", 1); hist[k] += int(v)
+            for l in out.splitlines():
+                if l.startswith("A "):
+                    f = l.split()
+                    if len(f) > 2 and f[2] in ("delete", "newheap", "collect", "malloc", "free", "give"): stats[tag + "_calls_" + f[2]] += 1
             mm = [l for l in mout.splitlines() if l.startswith("MISMATCH")]
             d = re.search(r'DONE (\d+) (\d+)', mout)
             if mm or not d or int(d.group(2)) != 0:
-                stats["lockstep_mismatching_logs"] += 1
-                if first_mismatch is None:
-                    first_mismatch = (j, mm[0] if mm else mout[-300:])
+                stats[tag + "_mismatching_logs"] += 1
+                v, _ = parse(rc, out)
+                v = [(k, t) for k, t in v if k in kinds]
+                if first_mismatch is None or (v and not first_mismatch[2]):
+                    first_mismatch = (j, mm[0] if mm else mout[-300:], v)
     if first_mismatch:
-        (sd, nt, nops), text = first_mismatch
+        (sd, nt, nops), text, v = first_mismatch
         # a model/implementation disagreement on the decomposition into atomic steps; is there also a failing input?
-        res.violation("corr:tfree-lockstep", "the interleaving model cannot follow the real allocator's atomic steps (schedule: build/s_conc lock %d %d %d log): %s"
-                      % (sd, nt, nops, text[:400]), witness=None, replay_name="%s_lockstep_%d.sched" % (pid, sd))
+        wit = None
+        if v:
+            wit = "# schedule replay (deterministic): build/s_conc %s %d %d %d\n# oracle: %s %s" % (mode, sd, nt, nops, v[0][0], v[0][1])
+        res.violation(key, "the interleaving model cannot follow the real allocator's atomic steps (schedule: build/s_conc %s %d %d %d log): %s%s"
+                      % (mode, sd, nt, nops, text[:400], (" ; the same run also fails the oracle `%s`: %s" % v[0]) if v else ""),
+                      witness=wit, replay_name="%s_%s_%d.sched" % (pid, tag, sd))
     d = res.cov.setdefault("input_distribution", {})
-    d["lockstep"] = dict(stats)
-    res.cov["traces_validated_against_impl"] += stats["lockstep_logs"]
-    res.cov["evaluations"] += stats["lockstep_atomic_steps"]
+    d[tag] = dict(stats)
+    d[tag + "_model_transitions"] = dict(sorted(hist.items()))
+    res.cov["traces_validated_against_impl"] += stats[tag + "_logs"]
+    res.cov["evaluations"] += stats[tag + "_atomic_steps"]
     return stats
 
 
